@@ -33,6 +33,11 @@ CLAIMED["C09"] = ("4/C09", "plus_days/plus_weeks: the real _FixedLengthDatePerio
                   "months-between maximality, Period.between for all 63 time-unit subsets over all pairs of times, YearMonth between, "
                   "normalize / to_duration over the fixed-length total.",
                   "LocalDate/LocalDateTime between with multi-unit date subsets, Hebrew/Badi month arithmetic pending; per-calendar lemmas use seeded windows in quick")
+CLAIMED["C10"] = ("4/C10", "Every LocalTime/OffsetTime accessor over all nanoseconds-of-day (and all offsets); all seven _TimePeriodField additions "
+                  "(wrap and whole-day carry) for |amount*unit| <= 10**24 ns; every factory/constructor accepts exactly its documented range; "
+                  "LocalDateTime.plus_<unit> over an abstract day-number date (contract C09.plusdays); LocalTime +/- Period per unit; ordering.",
+                  "float division on symbolic ints is not modelled as real arithmetic: it is concretised on a solver-chosen adversarial dividend (just "
+                  "below a multiple of the divisor, beyond 2**55), the rest of that branch is UNKNOWN")
 NOT_BUILT = {}
 
 NA_REASON = "check not built yet in this round (design in DESIGN.md section 4); no claim is made"
